@@ -52,7 +52,9 @@ class C19(Check):
         if binary is None:
             raise RuntimeError("emulator build failed: " + err[-1500:])
         # conversations: one UE through all five procedures; and one that ENDS with a release (no read at all in ReleasePDU)
-        configs = [[1, 1, 1, 1, 1], [1, 1, 0, 1, 0]] if self.tier == "quick" else [[2, 2, 1, 1, 2], [1, 1, 0, 1, 0], [2, 1, 1, 0, 1], [1, 0, 0, 0, 1]]
+        # ... and one in which a session is established and nothing but deregistrations follow (a fault swallowed inside
+        # EstablishPDU is then not caught by a later procedure of the same UE)
+        configs = [[1, 1, 1, 1, 1], [1, 1, 0, 1, 0], [2, 1, 0, 0, 2]] if self.tier == "quick" else [[2, 2, 1, 1, 2], [1, 1, 0, 1, 0], [2, 1, 1, 0, 1], [1, 0, 0, 0, 1], [2, 1, 0, 0, 2]]
         self.cov["process"] = []
         with cf.ThreadPoolExecutor(max_workers=len(configs)) as ex:
             list(ex.map(lambda c: self.one_config(binary, c), configs))
